@@ -361,6 +361,9 @@ impl SparseMatrix {
                     .map_err(|_| String::from("row value is not a number"))?;
                 // row == 0 is used for padding in irregular codes
                 if row != 0 {
+                    if row > nrows {
+                        return Err(String::from("row value exceeds the number of rows"));
+                    }
                     h.insert(row - 1, col);
                 }
             }
